@@ -6,7 +6,7 @@ import random
 START_METHODS = ['fork', 'threading', 'forkserver', 'spawn']
 
 
-def ref_call(elem_kind, i, extra_kw=None):
+def ref_call(elem_kind, i, shared=None):
     """what userfuncs.task returns for element i of kind elem_kind under the documented call
     convention (dict -> kwargs, iterable other than str/bytes/ndarray -> unpacked, else single)"""
     def c(v):
@@ -35,6 +35,8 @@ def ref_call(elem_kind, i, extra_kw=None):
         a, k = (None,), {}
     else:
         raise ValueError(elem_kind)
+    if shared is not None:
+        return ['R', c(a), c(k), ['S', c(shared)]]
     return ['R', c(a), c(k)]
 
 
@@ -51,7 +53,11 @@ def expected_value(call):
         if call.get('ndim', 1) == 2:
             return ['nd', [[(r * 3 + j + base) * 2 for j in range(3)] for r in range(n)]]
         return ['nd', [(i + base) * 2 for i in range(n)]]
-    return [ref_call(call.get('elem', 'scalar'), i + base) for i in range(n)]
+    vals = [ref_call(call.get('elem', 'scalar'), i + base, call.get('_shared')) for i in range(n)]
+    if call.get('func') == 'task2':
+        for v in vals:
+            v[0] = 'Q'
+    return vals
 
 
 def flatten_nd(value):
@@ -108,7 +114,7 @@ def check_exactly_once(call, rec, success):
         return None
     evs = task_events(rec)
     got = collections.Counter(key(['R', e['args'], e['kwargs']]) for e in evs)
-    exp = collections.Counter(key(v) for v in expected_value(call))
+    exp = collections.Counter(key(v[:3]) for v in expected_value(call))
     if success:
         if got != exp:
             extra = list((got - exp).elements())[:3]
@@ -176,10 +182,15 @@ def gen_map_scenarios(rng, count, tier, kinds=('map', 'map_unordered', 'imap', '
             pool['pass_worker_id'] = True
         if rng.random() < 0.2:
             pool['shared_objects'] = [1, 'two']
+            shared = pool['shared_objects']
+        else:
+            shared = None
         if rng.random() < 0.25:
             pool['use_worker_state'] = True
         call = {'kind': rng.choice(kinds), 'n': n, 'input': inp, 'elem': elem, 'params': params,
                 'init': rng.random() < 0.4, 'exit': rng.random() < 0.4, 'want_exit_results': True}
+        if shared is not None:
+            call['_shared'] = shared
         if inp == 'ndarray':
             call['func'] = 'task_np'
             call['ndim'] = rng.choice([1, 2])
@@ -203,3 +214,92 @@ def distribution(scens):
         d['max_active:' + str(p.get('max_tasks_active'))] += 1
         d['n_jobs:' + str(s['pool']['n_jobs'])] += 1
     return dict(d)
+
+
+def annotate_history(scen):
+    """walk the calls of a scenario whose pool settings change through setters: give every map call
+    the shared objects in force (for the reference result) and make the driver pick the function
+    variant that matches the pool's current extras"""
+    shared = scen['pool'].get('shared_objects')
+    for c in scen['calls']:
+        if c.get('kind') == 'setter' and c.get('name') == 'set_shared_objects':
+            shared = c['args'][0] if c.get('args') else None
+        if 'n' in c:
+            c['dynamic_extras'] = True
+            if shared is not None:
+                c['_shared'] = shared
+            else:
+                c.pop('_shared', None)
+    scen['extras'] = ''          # the static layout is not used
+    return scen
+
+
+def gen_history(rng, k, tier, sms, failures=False):
+    """a pool and a history of map-family calls, setters and (optionally) failing calls"""
+    nj = rng.choice([1, 2, 3, 4])
+    pool = {'n_jobs': nj, 'start_method': sms[k % len(sms)], 'keep_alive': rng.random() < 0.7}
+    if rng.random() < 0.3:
+        pool['pass_worker_id'] = True
+    if rng.random() < 0.3:
+        pool['shared_objects'] = ['s', 0]
+    if rng.random() < 0.4:
+        pool['use_worker_state'] = True
+    has_init, has_exit = rng.random() < 0.5, rng.random() < 0.5
+    calls = []
+    behaviour = {'task': []}
+    ncalls = rng.choice([2, 3, 4])
+    j = 0
+    shared_v = 1
+    while j < ncalls:
+        r = rng.random()
+        if calls and r < 0.3:
+            which = rng.choice(['pass_on_worker_id', 'set_shared_objects', 'set_use_worker_state', 'set_keep_alive'])
+            if which == 'set_shared_objects':
+                arg = rng.choice([None, ['s', shared_v]])
+                shared_v += 1
+            else:
+                arg = rng.random() < 0.5
+            calls.append({'kind': 'setter', 'name': which, 'args': [arg]})
+            continue
+        n = rng.choice([1, 2, 5, 9, 14])
+        params = {}
+        m = rng.choice(['cs', 'cs', 'def'])
+        if m == 'cs':
+            params['chunk_size'] = rng.choice([1, 2, 3])
+        if rng.random() < 0.35:
+            params['worker_lifespan'] = rng.choice([1, 2, 5])
+        call = {'kind': rng.choice(['map', 'map_unordered', 'imap', 'imap_unordered']), 'n': n, 'input': rng.choice(['list', 'gen']),
+                'elem': rng.choice(['scalar', 'scalar', 'tuple', 'dict']), 'params': params, 'base': 1000 * (j + 1),
+                'init': has_init, 'exit': has_exit, 'func': rng.choice(['task', 'task', 'task2'])}
+        if call['input'] == 'gen':
+            params['iterable_len'] = n
+        if failures and rng.random() < 0.45:
+            mode = rng.choice(['raise', 'raise', 'timeout', 'die', 'closed_early', 'nested'])
+            call['fail'] = mode
+            key = call['base'] + rng.randrange(n)
+            if call['elem'] != 'scalar' and mode in ('raise', 'timeout', 'die'):
+                call['elem'] = 'scalar'
+            if mode == 'raise':
+                behaviour['task'].append({'at': key, 'do': 'raise', 'exc': rng.choice(['ValueError', 'CustomError', 'AttrError'])})
+                call['expect_exc'] = True
+            elif mode == 'timeout':
+                behaviour['task'].append({'at': key, 'do': 'block', 's': 30})
+                params['task_timeout'] = 0.4
+                call['expect_exc'] = True
+            elif mode == 'die':
+                behaviour['task'].append({'at': key, 'do': 'die'})
+                call['expect_exc'] = True
+                if pool['start_method'] == 'threading':
+                    pool['start_method'] = 'fork'
+            elif mode == 'closed_early':
+                call['kind'] = rng.choice(['imap', 'imap_unordered'])
+                call['consume'] = min(1, n)
+                call['abandoned'] = True
+            elif mode == 'nested':
+                call['nested_misuse'] = True
+                call['expect_exc'] = True
+        calls.append(call)
+        j += 1
+    calls.append({'kind': 'stop_and_join', 'want_exit_results': True})
+    sc = {'id': f'h{k}', 'pool': pool, 'calls': calls, 'budget': 75, 'behaviour': behaviour}
+    return annotate_history(sc)
